@@ -232,6 +232,15 @@ def run(c):
             crashed(out, "explore", seed, rc) or c.obligation("harness-run:c08-explore-" + tag, False, out[-3000:])
         return lines
 
+    def lone(hb, order, tag):
+        """lone Runs in a process of their own (what survives an engine -- package-level state -- starts empty)"""
+        rc, out = c.run_harness(hb, ["-mode", "lone", "-order", order, "-tmp", os.path.join(tmp, tag)], timeout=300,
+                                env={"GORACE": "halt_on_error=0 log_path=%s" % os.path.join(race_dir, tag)})
+        lines = jlines(out)
+        if rc not in (0, 66) or not any(l.get("k") == "done" for l in lines):
+            crashed(out, "lone", c.seed, rc) or c.obligation("harness-run:c08-" + tag, False, out[-3000:])
+        return lines
+
     def findtype(hb, seed, nscripts, nbursts, tag):
         args = ["-mode", "findtype", "-seed", str(seed), "-scripts", str(nscripts), "-bursts", str(nbursts),
                 "-tmp", os.path.join(tmp, tag)]
@@ -242,7 +251,7 @@ def run(c):
             crashed(out, "findtype", seed, rc) or c.obligation("harness-run:c08-findtype-" + tag, False, out[-3000:])
         return lines
 
-    with ThreadPoolExecutor(max_workers=4) as ex:
+    with ThreadPoolExecutor(max_workers=6) as ex:
         fut_p = ex.submit(prove)
         hb = c.build_harness("c08", race=True)
         if hb is None:
@@ -255,9 +264,12 @@ def run(c):
         # the budget bounds the EXTRA rounds; one round per (rule set, N) is always run (that alone takes ~25-35 s with -race)
         fut_e = ex.submit(explore, hb, c.seed, 12 if not thorough else 420, "explore", thorough)
         fut_f = ex.submit(findtype, hb, c.seed, 8 if not thorough else 60, 3 if not thorough else 30, "findtype")
+        fut_l1 = ex.submit(lone, hb, "fwd", "lonefwd")
+        fut_l2 = ex.submit(lone, hb, "rev", "lonerev")
         proved = fut_p.result()
         ex_lines = fut_e.result()
         ft_lines = fut_f.result()
+        lone_fwd, lone_rev = fut_l1.result(), fut_l2.result()
 
     # ------------------------------------------------------------------ O: exploration vs the sequential baseline
     def judge_explore(lines, tag):
@@ -280,9 +292,12 @@ def run(c):
                     c.obligation("harness:c08-natives-accounted", False, "natives neither called nor reported: %s" % missing[:10])
             elif k == "rules-fired":
                 # rules of the set that deliver reports in the sequential baseline (a rule set that exercises nothing shows here)
+                l["rules"] = l.get("rules") or []
                 c.coverage["rules_reporting:" + l["ruleset"]] = len(l["rules"])
                 if l["ruleset"].startswith("natives"):
                     fired_natives[l["ruleset"]] = len(l["rules"])
+                if not l["rules"]:
+                    c.obligation("harness:c08-rules-fire-" + l["ruleset"], False, "no rule of the set delivers a report in the sequential baseline")
                 if l["ruleset"].startswith("loadtime") and len(l["rules"]) < 20:
                     c.obligation("harness:c08-loadtime-rules-" + l["ruleset"], False,
                                  "only %d rules of the Load-time-object rule set deliver reports" % len(l["rules"]))
@@ -332,6 +347,38 @@ def run(c):
                          "%d rules of the natives rule sets deliver reports in the baseline, expected at least %d" % (have, want))
     else:
         c.obligation("harness:c08-natives-line", False, "the harness did not report the natives it exercises")
+
+    # ------------------------------------------------------------------ O: lone Runs in processes of their own
+    def judge_lone():
+        def table(lines, kind):
+            return {(l["ruleset"], l["file"]): l["res"] for l in lines if l.get("k") == kind}
+        for l in lone_fwd + lone_rev:
+            if l.get("k") == "error":
+                c.obligation("harness:c08-lone", False, json.dumps(l)[:1500])
+        fwd, rev, base = table(lone_fwd, "lone"), table(lone_rev, "lone"), table(ex_lines, "base")
+        c.coverage["lone_runs_in_other_processes"] = len(fwd) + len(rev)
+
+        def differ(a, b, what, inp):
+            ar, br = a.get("reports") or [], b.get("reports") or []
+            diff = next((i for i, (x, y) in enumerate(zip(ar, br)) if x != y), min(len(ar), len(br)))
+            c.fail("oracle", what, input=inp,
+                   expected={"reports": len(ar), "panic": a.get("panic"), "first_difference_at": diff, "there": ar[diff:diff + 2]},
+                   observed={"reports": len(br), "panic": b.get("panic"), "there": br[diff:diff + 2]})
+        shown = 0
+        for key in sorted(fwd):
+            c.count()
+            if key in rev and fwd[key] != rev[key] and shown < 6:
+                shown += 1
+                differ(fwd[key], rev[key], "a lone Run on a fresh engine delivers other reports when the PROCESS has checked other files before "
+                       "(two processes run the same lone calls in opposite orders)",
+                       {"ruleset": key[0], "file": key[1], "processes": ["-mode lone -order fwd", "-mode lone -order rev"]})
+            if key in base and fwd[key] != base[key] and shown < 6:
+                shown += 1
+                differ(fwd[key], base[key], "the baseline of the exploring process (after a concurrent first-touch round) differs from the lone Run "
+                       "in a process of its own", {"ruleset": key[0], "file": key[1], "seed": c.seed})
+        if fwd and not (set(fwd) == set(rev) and set(fwd) <= set(base)):
+            c.obligation("harness:c08-lone-tables", False, "the processes ran different (rule set, file) pairs: %d / %d / %d" % (len(fwd), len(rev), len(base)))
+    judge_lone()
 
     # the table of natives regenerated from the source (gen_natives) is the table the engine really has
     if proved is not False and natives_lines:
@@ -502,7 +549,8 @@ def run(c):
     # ------------------------------------------------------------------ O: the race detector
     def judge_races():
         reps = race_reports(os.path.join(race_dir, "explore")) + race_reports(os.path.join(race_dir, "findtype")) + \
-            race_reports(os.path.join(race_dir, "search")) + race_reports(os.path.join(race_dir, "searchft"))
+            race_reports(os.path.join(race_dir, "search")) + race_reports(os.path.join(race_dir, "searchft")) + \
+            race_reports(os.path.join(race_dir, "lonefwd")) + race_reports(os.path.join(race_dir, "lonerev"))
         seen = set()
         for r in reps:
             # one failure per distinct pair of top frames
